@@ -472,12 +472,18 @@ func checkC04(c *km.Ctx) {
 	}
 }
 
-// cellIsResultOf: the local cell `target` is assigned exactly once, from a call to the module function that owns the
-// cell `inner`, and every return of that function hands back either the contents of `inner` or a zero value - so
-// what the function established about inner's fields on its success path holds for target's fields after the call.
+// cellIsResultOf: the local cell (or value) `target` is assigned exactly once, from a call to the module function
+// that owns the cell or value `inner`, and every return of that function hands back either `inner` or a zero value -
+// so what the function established about inner's fields on its success path holds for target's fields after the call.
 func cellIsResultOf(target, inner ssa.Value) bool {
-	ia, ok := inner.(*ssa.Alloc)
-	if !ok {
+	var owner *ssa.Function
+	switch x := inner.(type) {
+	case *ssa.Alloc:
+		owner = x.Parent()
+	case ssa.Instruction:
+		owner = x.Parent()
+	}
+	if owner == nil {
 		return false
 	}
 	cl, idx := callRes(km.CellOrigin(target))
@@ -485,9 +491,10 @@ func cellIsResultOf(target, inner ssa.Value) bool {
 		return false
 	}
 	g := km.StaticCallee(cl.Common())
-	if g == nil || g != ia.Parent() {
+	if g == nil || g != owner {
 		return false
 	}
+	innerO := km.CellOrigin(inner)
 	loads := 0
 	for _, b := range g.Blocks {
 		ret, ok := b.Instrs[len(b.Instrs)-1].(*ssa.Return)
@@ -502,7 +509,11 @@ func cellIsResultOf(target, inner ssa.Value) bool {
 		if _, isC := v.(*ssa.Const); isC {
 			continue
 		}
-		if u, isU := v.(*ssa.UnOp); isU && u.Op == token.MUL && u.X == ssa.Value(ia) {
+		if u, isU := v.(*ssa.UnOp); isU && u.Op == token.MUL && u.X == inner {
+			loads++
+			continue
+		}
+		if v == inner || v == innerO || km.CellOrigin(v) == innerO {
 			loads++
 			continue
 		}
